@@ -334,6 +334,35 @@ static void mon_event(int kind, long pnum, long a, long b, long c, const void *c
 extern void hx_controller_abort(const char *sig, const char *detail);  /* runner.c: emits verdict, _exit */
 
 static int blocked[MAXP]; static long idle_rounds = 0;
+/* free-running mode: progress-based deadlock detection (independent of wall-clock time).  Every event that is not a spin step
+   advances a global epoch; a spinning thread counts its consecutive spin steps within the current epoch.  When all nprocs
+   workers have started, none has exited... and every live one has spun FM_THRESH times within the same epoch, no thread can ever
+   make progress again (a spinning worker only waits for another worker's progress). */
+#define FM_THRESH 100000L
+static long fm_epoch = 1; static long fm_seen[MAXP], fm_spin[MAXP]; static int fm_alive[MAXP]; static int fm_started = 0;
+static void fm_reset(void) { fm_epoch = 1; fm_started = 0; for (int t = 0; t < MAXP; ++t) { fm_seen[t] = 0; fm_spin[t] = 0; fm_alive[t] = 0; } }
+static void fm_event(int kind, long pnum, long a)
+{
+    if (pnum < 0 || pnum >= MAXP) return;
+    int spinning = (kind == SLUV_AWAIT_SPIN) || (kind == SLUV_SCHED_EXIT && a == EMPTY);
+    if (!spinning) {   /* entering the scheduler, leaving its critical section empty-handed and announcing a wait are neutral */
+        if (kind != SLUV_SCHED_ENTER && kind != SLUV_WAIT_COL && !(kind == SLUV_SCHED_TAKE && a == EMPTY)) __atomic_add_fetch(&fm_epoch, 1, __ATOMIC_SEQ_CST);
+        return; }
+    long e = __atomic_load_n(&fm_epoch, __ATOMIC_SEQ_CST);
+    if (fm_seen[pnum] != e) { __atomic_store_n(&fm_spin[pnum], 0, __ATOMIC_SEQ_CST); __atomic_store_n(&fm_seen[pnum], e, __ATOMIC_SEQ_CST); }
+    long c = __atomic_add_fetch(&fm_spin[pnum], 1, __ATOMIC_SEQ_CST);
+    if (c < FM_THRESH || (c & 4095)) return;
+    if (__atomic_load_n(&fm_started, __ATOMIC_SEQ_CST) < s_P_req) return;
+    int live = 0;
+    for (int t = 0; t < MAXP; ++t) if (__atomic_load_n(&fm_alive[t], __ATOMIC_SEQ_CST)) {
+        live++;
+        if (__atomic_load_n(&fm_seen[t], __ATOMIC_SEQ_CST) != e || __atomic_load_n(&fm_spin[t], __ATOMIC_SEQ_CST) < FM_THRESH) return;
+    }
+    if (!live || __atomic_load_n(&fm_epoch, __ATOMIC_SEQ_CST) != e) return;
+    static char dd[600]; size_t o = snprintf(dd, sizeof dd, "free-running mode: all %d live workers have each spun %ld times in the scheduler / on a column status without any worker making progress in between (lost update or cyclic wait)", live, FM_THRESH);
+    if (m_sh) snprintf(dd + o, sizeof dd - o, "; tasks_remain=%ld qcount=%ld", (long)m_sh->tasks_remain, (long)m_sh->taskq.count);
+    hx_controller_abort("C04:deadlock", dd);
+}
 static void deadlock_abort(void)
 {
     static char dd[1500]; size_t o = snprintf(dd, sizeof dd, "every live thread is spin-waiting and %ld full rounds over all of them brought no progress (lost wake-up or cyclic wait); last event per thread (pnum:kind:a:b):", idle_rounds);
@@ -366,6 +395,7 @@ void ctl_thread_start(long pnum, void *arg)
     (void)arg;
     tl_pnum = pnum;
     __atomic_add_fetch(&g_mon.thread_starts, 1, __ATOMIC_SEQ_CST);
+    if (pnum >= 0 && pnum < MAXP) { __atomic_store_n(&fm_alive[pnum], 1, __ATOMIC_SEQ_CST); __atomic_add_fetch(&fm_started, 1, __ATOMIC_SEQ_CST); }
     if (s_mode != SCHED_CONTROLLED || !active || pnum < 0 || pnum >= MAXP) return;
     HX_LOCK(&cm);
     reg[pnum] = 1; alive[pnum] = 1; nreg++; nalive++;
@@ -377,6 +407,7 @@ void ctl_thread_exit(long pnum, void *arg)
 {
     (void)arg;
     __atomic_add_fetch(&g_mon.thread_exits, 1, __ATOMIC_SEQ_CST);
+    if (pnum >= 0 && pnum < MAXP) { __atomic_store_n(&fm_alive[pnum], 0, __ATOMIC_SEQ_CST); __atomic_add_fetch(&fm_epoch, 1, __ATOMIC_SEQ_CST); }
     if (s_mode != SCHED_CONTROLLED || !active || pnum < 0 || pnum >= MAXP) return;
     HX_LOCK(&cm);
     alive[pnum] = 0; nalive--;
@@ -421,6 +452,7 @@ void slu_mt_verif_event(int kind, long pnum, long a, long b, long c, const void 
     /* free / none mode (or events from the master thread before workers exist) */
     if (g_mon_enabled) { HX_LOCK(&mm); mon_event(kind, pnum, a, b, c, ctx); pthread_mutex_unlock(&mm); }
     if (kind == SLUV_AWAIT_SPIN) __atomic_add_fetch(&g_mon.spins, 1, __ATOMIC_RELAXED);
+    if (s_mode == SCHED_FREE && active) fm_event(kind, pnum, a);
     if (s_mode == SCHED_FREE && active && is_yield_kind(kind) && !(kind == SLUV_PRUNE_STEP && b == 3 && !g_yield_prune_inner)) {
         if (!tl_rng) tl_rng = s_seed * 0x2545F4914F6CDD1Dull + (uint64_t)(pnum + 2) * 0x9E3779B97F4A7C15ull + 1;
         uint64_t r = sm64(&tl_rng);
@@ -454,7 +486,7 @@ int sched_current_P(void) { return s_P_req > 0 ? s_P_req : 1; }
 void sched_begin_factor(int P)
 {
     s_P = P > MAXP ? MAXP : P; s_P_req = P;
-    mon_reset();
+    mon_reset(); fm_reset();
     nreg = 0; nalive = 0; cur = -1; spin_run = 0; ev_index = 0; idle_rounds = 0; for (int t = 0; t < MAXP; ++t) blocked[t] = 0;
     s_rng = s_seed ^ 0xD1B54A32D192ED03ull;
     for (int t = 0; t < MAXP; ++t) { reg[t] = 0; alive[t] = 0; pthread_cond_init(&cv[t], NULL); }
